@@ -716,6 +716,612 @@ pub fn replay_l1(v: &Value) -> Vec<String> {
 }
 
 // ------------------------------------------------------------------------------------------
+// Generic program check (layers 2-4): one program, several inputs
+
+pub struct ProgCase<'a> {
+    pub kind: VmKind,
+    pub prog: &'a [I],
+    pub inputs: &'a [(Vec<u8>, Vec<u8>)],
+    pub helpers: bool,
+    pub class: &'a str,
+    pub max_steps: u64,
+    pub has_local_call: bool,
+}
+
+#[derive(Default)]
+pub struct ProgStats {
+    pub rejected: bool,
+    pub compared: u64,
+}
+
+fn prog_replay(c: &ProgCase, eng: Eng) -> Value {
+    json!({"kind":"isa-prog","eng":eng.name(),"vm":vm::kind_name(c.kind),"prog":hex(&isa::enc(c.prog)),
+           "inputs": c.inputs.iter().map(|(a,b)| json!([hex(a),hex(b)])).collect::<Vec<_>>(),
+           "helpers": c.helpers, "class": c.class, "max_steps": c.max_steps, "local_call": c.has_local_call})
+}
+
+/// Check one program on `eng`. `rp` is the replay descriptor to attach to violations.
+pub fn check_prog(s: &mut Sink, eng: Eng, c: &ProgCase, rp: &Value) -> ProgStats {
+    let mut st = ProgStats::default();
+    let bytes = isa::enc(c.prog);
+    let class = c.class;
+    let pkt_len = c.inputs.first().map_or(0, |i| i.0.len());
+    let mb_len = c.inputs.first().map_or(0, |i| i.1.len());
+    let mut r = match catch(|| Runner::new(c.kind, &bytes, pkt_len, mb_len, c.helpers)) {
+        Ok(Ok(r)) => r,
+        Ok(Err(_)) => {
+            st.rejected = true;
+            return st;
+        }
+        Err(p) => {
+            s.violation(&format!("verifier/{class}/{}", panic_class(&p)), format!("loading the program panicked: {p}"), rp.clone());
+            st.rejected = true;
+            return st;
+        }
+    };
+    // model first: it decides what is inside the claim
+    let mut models = vec![];
+    for (pkt, mb) in c.inputs {
+        let mut m = model_for(c.prog, c.kind, pkt, mb, c.helpers);
+        m.max_steps = c.max_steps;
+        let end = m.run();
+        s.count("states", 1);
+        s.count("transitions", m.steps);
+        s.count("evaluations", 1);
+        s.outcome(match &end {
+            End::Ret(Val::Int(_)) => "ret",
+            End::Ret(_) => "out-of-claim",
+            End::Err(_) => "model-err",
+            End::OutOfClaim(_) => "out-of-claim",
+            End::NoTermination => "no-termination",
+            End::Malformed(_) => "model-malformed",
+        }, 1);
+        models.push((end, m));
+    }
+    let mut compiled = false;
+    for (n, (pkt, mb)) in c.inputs.iter().enumerate() {
+        let (end, m) = &models[n];
+        if matches!(end, End::Malformed(_)) {
+            // the real verifier accepted something the reference machine cannot run: C05/C06 territory
+            continue;
+        }
+        let defined = matches!(end, End::Ret(Val::Int(_)));
+        let budget = if matches!(end, End::NoTermination) { c.max_steps } else { m.steps * 2 + 1000 };
+        let io = r.run(Eng::Interp, pkt, mb, budget);
+        if eng == Eng::Interp {
+            s.count("traces_validated_against_impl", 1);
+            st.compared += 1;
+            if let Some((sym, det)) = cmp_with_model(end, m, &io) {
+                if explained_by_zext(c.prog, c.kind, pkt, mb, c.helpers, c.max_steps, &io) {
+                    s.violation(&format!("interp/{QUIRK_SIG_CLASS}/imm-zero-extended"), format!("{det} [input {}]", hex(&pkt[..pkt.len().min(16)])), rp.clone());
+                } else {
+                    s.violation(&format!("interp/{class}/{sym}"), format!("{det} [input {}]", hex(&pkt[..pkt.len().min(16)])), rp.clone());
+                }
+            }
+            if defined && (m.taken > 0 || m.steps > 2) {
+                s.nontrivial_hashed(fnv(&bytes) ^ fnv(pkt).rotate_left(17) ^ (n as u64));
+            }
+            continue;
+        }
+        if !defined || !matches!(io.out, Out::Ok(_)) {
+            s.outcome("not-compared(interpreter-not-ok-or-undefined)", 1);
+            continue;
+        }
+        if !compiled {
+            match catch(|| r.vm.compile(eng)) {
+                Ok(Ok(())) => {
+                    if c.has_local_call && eng == Eng::Cl {
+                        s.violation(&format!("cranelift/{class}/compiles-local-call"), "a program with an eBPF-to-eBPF call was compiled instead of refused".into(), rp.clone());
+                        return st;
+                    }
+                }
+                Ok(Err(e)) => {
+                    if c.has_local_call && eng == Eng::Cl {
+                        s.outcome("cranelift-refused-local-call", 1);
+                        s.count("traces_validated_against_impl", 1);
+                    } else {
+                        s.violation(&format!("{}/{class}/compile-err", eng.name()), format!("compilation refused a verified program: {e}"), rp.clone());
+                    }
+                    return st;
+                }
+                Err(p) => {
+                    s.violation(&format!("{}/{class}/compile-{}", eng.name(), panic_class(&p)), format!("compilation panicked: {p}"), rp.clone());
+                    return st;
+                }
+            }
+            compiled = true;
+        }
+        let o = r.run(eng, pkt, mb, 0);
+        s.count("traces_validated_against_impl", 1);
+        st.compared += 1;
+        s.nontrivial_hashed(fnv(&bytes) ^ fnv(pkt).rotate_left(17) ^ (n as u64));
+        if let Some((sym, det)) = cmp_with_interp(m, &io, &o) {
+            if cmp_with_model(end, m, &o).is_none() && explained_by_zext(c.prog, c.kind, pkt, mb, c.helpers, c.max_steps, &io) {
+                s.violation(&format!("{}/{QUIRK_SIG_CLASS}/interpreter-zero-extends-imm", eng.name()), format!("{det} [input {}]", hex(&pkt[..pkt.len().min(16)])), rp.clone());
+            } else {
+                s.violation(&format!("{}/{class}/{sym}", eng.name()), format!("{det} [input {}]", hex(&pkt[..pkt.len().min(16)])), rp.clone());
+            }
+        }
+        if !r.pkt.canary_ok() || !r.mb.canary_ok() {
+            s.violation(&format!("{}/{class}/wrote-outside-buffers", eng.name()), "bytes next to the packet / metadata buffer were modified".into(), rp.clone());
+            r.pkt.reset_canary();
+            r.mb.reset_canary();
+        }
+    }
+    st
+}
+
+pub fn replay_prog(v: &Value) -> Vec<String> {
+    let eng = Eng::parse(v["eng"].as_str().unwrap());
+    let prog = isa::dec(&unhex(v["prog"].as_str().unwrap()));
+    let inputs: Vec<(Vec<u8>, Vec<u8>)> = v["inputs"].as_array().unwrap().iter().map(|x| (unhex(x[0].as_str().unwrap()), unhex(x[1].as_str().unwrap()))).collect();
+    let class = v["class"].as_str().unwrap().to_string();
+    let c = ProgCase { kind: vm::parse_kind(v["vm"].as_str().unwrap()), prog: &prog, inputs: &inputs, helpers: v["helpers"].as_bool().unwrap(), class: &class, max_steps: v["max_steps"].as_u64().unwrap(), has_local_call: v["local_call"].as_bool().unwrap_or(false) };
+    let mut s = Sink::new("replay", Tier::Quick, 0, 1, None, None, 3600);
+    let rp = v.clone();
+    run_group(&mut s, eng, &class, &rp, |cs| {
+        check_prog(cs, eng, &c, &rp);
+    });
+    let r = s.finish();
+    r["violations"].as_array().unwrap().iter().map(|x| format!("{}: {}", x["sig"].as_str().unwrap(), x["detail"].as_str().unwrap())).collect()
+}
+
+// ------------------------------------------------------------------------------------------
+// Layer 2: sequences over the A2 alphabet
+
+pub fn a2_alphabet() -> Vec<(&'static str, Vec<I>)> {
+    let i = |opc: u8, d: u8, s: u8, off: i16, imm: i32| I::new(opc, d, s, off, imm);
+    vec![
+        ("add64 r2,r3", vec![i(0x0f, 2, 3, 0, 0)]),
+        ("sub32 r2,r3", vec![i(0x1c, 2, 3, 0, 0)]),
+        ("mul64 r0,r3", vec![i(0x2f, 0, 3, 0, 0)]),
+        ("mul32 r3,r2", vec![i(0x2c, 3, 2, 0, 0)]),
+        ("mul64 r2,0", vec![i(0x27, 2, 0, 0, 0)]),
+        ("div64 r2,r3", vec![i(0x3f, 2, 3, 0, 0)]),
+        ("div32 r0,r2", vec![i(0x3c, 0, 2, 0, 0)]),
+        ("div64 r3,0", vec![i(0x37, 3, 0, 0, 0)]),
+        ("mod64 r3,r4", vec![i(0x9f, 3, 4, 0, 0)]),
+        ("mod32 r4,r0", vec![i(0x9c, 4, 0, 0, 0)]),
+        ("mod32 r2,0", vec![i(0x94, 2, 0, 0, 0)]),
+        ("lsh64 r2,r4", vec![i(0x6f, 2, 4, 0, 0)]),
+        ("rsh32 r3,r2", vec![i(0x7c, 3, 2, 0, 0)]),
+        ("arsh64 r0,r3", vec![i(0xcf, 0, 3, 0, 0)]),
+        ("arsh32 r2,33", vec![i(0xc4, 2, 0, 0, 33)]),
+        ("neg32 r2", vec![i(0x84, 2, 0, 0, 0)]),
+        ("neg64 r3", vec![i(0x87, 3, 0, 0, 0)]),
+        ("mov32 r2,r3", vec![i(0xbc, 2, 3, 0, 0)]),
+        ("mov64 r3,r0", vec![i(0xbf, 3, 0, 0, 0)]),
+        ("mov32 r4,-1", vec![i(0xb4, 4, 0, 0, -1)]),
+        ("mov64 r0,-1", vec![i(0xb7, 0, 0, 0, -1)]),
+        ("le16 r2", vec![i(0xd4, 2, 0, 0, 16)]),
+        ("le32 r3", vec![i(0xd4, 3, 0, 0, 32)]),
+        ("be16 r2", vec![i(0xdc, 2, 0, 0, 16)]),
+        ("be32 r0", vec![i(0xdc, 0, 0, 0, 32)]),
+        ("be64 r3", vec![i(0xdc, 3, 0, 0, 64)]),
+        ("lddw r4,0x8000000080000000", isa::lddw(4, 0x8000000080000000).to_vec()),
+        ("or64 r2,-2^31", vec![i(0x47, 2, 0, 0, i32::MIN)]),
+        ("and32 r3,-1", vec![i(0x54, 3, 0, 0, -1)]),
+        ("xor64 r0,r2", vec![i(0xaf, 0, 2, 0, 0)]),
+        ("add32 r0,r0", vec![i(0x0c, 0, 0, 0, 0)]),
+        ("stxdw [r10-8],r2", vec![i(0x7b, 10, 2, -8, 0)]),
+        ("ldxdw r3,[r10-8]", vec![i(0x79, 3, 10, -8, 0)]),
+        ("stxw [r10-16],r3", vec![i(0x63, 10, 3, -16, 0)]),
+        ("ldxw r2,[r10-16]", vec![i(0x61, 2, 10, -16, 0)]),
+        ("stb [r10-1],0x1ff", vec![i(0x72, 10, 0, -1, 0x1ff)]),
+        ("ldxb r0,[r10-1]", vec![i(0x71, 0, 10, -1, 0)]),
+        ("stxdw [r8+0],r4", vec![i(0x7b, 8, 4, 0, 0)]),
+        ("ldxdw r2,[r8+0]", vec![i(0x79, 2, 8, 0, 0)]),
+        ("stxh [r8+6],r0", vec![i(0x6b, 8, 0, 6, 0)]),
+        ("xadddw [r10-8],r3", vec![i(0xdb, 10, 3, -8, 0)]),
+        ("xaddw [r8+4],r2", vec![i(0xc3, 8, 2, 4, 0)]),
+        ("ldabsh 2", vec![i(0x28, 0, 0, 0, 2)]),
+        ("ldindb r4,1", vec![i(0x50, 0, 4, 0, 1)]),
+        ("stxdw [r1+168],r3", vec![i(0x7b, 1, 3, 168, 0)]),
+        ("ldxw r4,[r1+170]", vec![i(0x61, 4, 1, 170, 0)]),
+        ("call 1", vec![isa::call_helper(GATHER_ID)]),
+        ("jsgt r2,r3,+0", vec![i(0x6d, 2, 3, 0, 0)]),
+    ]
+}
+
+const L2_REGS: [u8; 5] = [0, 2, 3, 4, 6];
+
+fn l2_states() -> Vec<[u64; 5]> {
+    vec![
+        [1, 2, 3, 5, 7],
+        [0x8000000000000001, 0xffffffff80000002, 0x80000003, 0xfffffffffffffffd, 0x7fffffffffffffff],
+        [0x0123456789abcdef, 0x100000001, 0xffff, 0x1f00000021, 0x8000000000000000],
+    ]
+}
+
+fn l2_packet(st: &[u64; 5]) -> Vec<u8> {
+    let mut pkt = vec![0u8; PKT_LEN];
+    for (n, r) in L2_REGS.iter().enumerate() {
+        pkt[8 * *r as usize..8 * *r as usize + 8].copy_from_slice(&st[n].to_le_bytes());
+    }
+    for k in SCR0..SCR1 {
+        pkt[k] = (k * 7 + 3) as u8;
+    }
+    for k in SCR1..PKT_LEN {
+        pkt[k] = 0x99;
+    }
+    pkt
+}
+
+pub fn l2_program(seq: &[&Vec<I>]) -> Vec<I> {
+    let mut p = vec![isa::mov64r(7, 1)];
+    for r in L2_REGS {
+        p.push(isa::ldxdw(r, 7, 8 * r as i16));
+    }
+    p.push(isa::mov64r(8, 10));
+    p.push(isa::add64i(8, -8));
+    p.push(isa::stdw(10, -8, 0x11));
+    p.push(isa::stdw(10, -16, 0x22));
+    for x in seq {
+        p.extend(x.iter());
+    }
+    for r in L2_REGS {
+        p.push(isa::stxdw(7, DUMP0 + 8 * r as i16, r));
+    }
+    p.push(isa::ldxdw(5, 10, -8));
+    p.push(isa::stxdw(7, 128, 5));
+    p.push(isa::ldxdw(5, 10, -16));
+    p.push(isa::stxdw(7, 136, 5));
+    p.push(isa::mov64i(0, 0x600d));
+    p.push(isa::EXIT);
+    p
+}
+
+pub fn run_layer2(s: &mut Sink, eng: Eng, g: &mut u64) {
+    let thorough = s.tier == Tier::Thorough;
+    let depth = if thorough { 4 } else { 3 };
+    let alpha = a2_alphabet();
+    let n = alpha.len();
+    let inputs: Vec<(Vec<u8>, Vec<u8>)> = l2_states().iter().map(|st| (l2_packet(st), vec![])).collect();
+    s.meta.insert("layer2".into(), json!({"alphabet_A2": alpha.iter().map(|a| a.0).collect::<Vec<_>>(), "depth": depth, "initial_states": 3}));
+    // group = (first, second) instruction; lengths 1 and 2 are done in the groups with second == 0 / first
+    for a in 0..n {
+        for b in 0..n {
+            let idx = *g;
+            *g += 1;
+            if !s.take(idx) {
+                continue;
+            }
+            if s.expired() {
+                s.cut("layer 2: sequences");
+                return;
+            }
+            let class = "seq";
+            let rp0 = json!({"kind":"isa-l2-group","eng":eng.name(),"a":a,"b":b,"depth":depth});
+            s.mark(idx, &format!("{}/seq", eng.name()), &rp0);
+            let alpha2 = a2_alphabet();
+            let inputs2 = inputs.clone();
+            run_group(s, eng, class, &rp0, move |cs| {
+                let mut seqs: Vec<Vec<usize>> = vec![];
+                if b == 0 {
+                    seqs.push(vec![a]);
+                }
+                seqs.push(vec![a, b]);
+                let mut frontier = vec![vec![a, b]];
+                for _ in 2..depth {
+                    let mut next = vec![];
+                    for f in &frontier {
+                        for c in 0..alpha2.len() {
+                            let mut x = f.clone();
+                            x.push(c);
+                            next.push(x);
+                        }
+                    }
+                    seqs.extend(next.iter().cloned());
+                    frontier = next;
+                }
+                for sq in seqs {
+                    let parts: Vec<&Vec<I>> = sq.iter().map(|k| &alpha2[*k].1).collect();
+                    let prog = l2_program(&parts);
+                    let c = ProgCase { kind: VmKind::Raw, prog: &prog, inputs: &inputs2, helpers: true, class: "seq", max_steps: 10_000, has_local_call: false };
+                    let rp = prog_replay(&c, eng);
+                    let st = check_prog(cs, eng, &c, &rp);
+                    if st.rejected {
+                        cs.violation("verifier/seq/rejects-template", "the default verifier rejected a well-formed sequence program".into(), rp);
+                    }
+                    cs.sample("l2-sequence", || json!({"sequence": sq.iter().map(|k| alpha2[*k].0).collect::<Vec<_>>()}));
+                }
+            });
+        }
+    }
+    s.done("layer 2: sequences");
+}
+
+// ------------------------------------------------------------------------------------------
+// Layer 3: control-flow skeletons (NoData VM; r1 = 0 is the only defined register at entry)
+
+#[derive(Clone, Copy, Debug, PartialEq, Eq)]
+pub enum Slot {
+    M,
+    Z,
+    E,
+    W,
+    Ja(i32),
+    Jl(i32),
+    Js(i32),
+    C(i32),
+}
+
+/// All slot choices for position `pos` of a skeleton with `n` slots (+2 epilogue slots).
+pub fn slot_choices(pos: usize, n: usize, with_calls: bool) -> Vec<Slot> {
+    let total = n as i32 + 2;
+    let mut v = vec![Slot::M, Slot::Z, Slot::E, Slot::W];
+    for t in 0..total {
+        let d = t - (pos as i32 + 1);
+        v.push(Slot::Ja(d));
+        v.push(Slot::Jl(d));
+        v.push(Slot::Js(d));
+        if with_calls {
+            v.push(Slot::C(d));
+        }
+    }
+    v
+}
+
+pub fn skeleton_program(sk: &[Slot]) -> Option<Vec<I>> {
+    // W takes two slots: it consumes the following position, which must be W's filler
+    let mut p = vec![];
+    let mut k = 0;
+    let w = [1i32, 3, 9, 27, 81, 243, 729, 2187];
+    while k < sk.len() {
+        match sk[k] {
+            Slot::M => p.push(isa::add64i(1, w[k % 8])),
+            Slot::Z => p.push(isa::mov64r(0, 1)),
+            Slot::E => p.push(isa::EXIT),
+            Slot::W => {
+                if k + 1 >= sk.len() || sk[k + 1] != Slot::W {
+                    return None;
+                }
+                let l = isa::lddw(8, 0x1122334455667788);
+                p.push(l[0]);
+                p.push(l[1]);
+                k += 1;
+            }
+            Slot::Ja(d) => p.push(isa::ja(d as i16)),
+            Slot::Jl(d) => p.push(I::new(0xa5, 1, 0, d as i16, 40)),
+            Slot::Js(d) => p.push(I::new(0x45, 1, 0, d as i16, 1)),
+            Slot::C(d) => p.push(isa::call_local(d)),
+        }
+        k += 1;
+    }
+    p.push(isa::mov64r(0, 1));
+    p.push(isa::EXIT);
+    Some(p)
+}
+
+fn skel_str(sk: &[Slot]) -> String {
+    sk.iter().map(|x| format!("{x:?}")).collect::<Vec<_>>().join(" ")
+}
+
+pub fn run_layer3(s: &mut Sink, eng: Eng, g: &mut u64) {
+    let thorough = s.tier == Tier::Thorough;
+    let n: usize = match (eng, thorough) {
+        (Eng::Cl, false) => 3,
+        (Eng::Cl, true) => 4,
+        (_, false) => 4,
+        (_, true) => 5,
+    };
+    s.meta.insert("layer3".into(), json!({"slots": n, "grammar": "M add64 r1,3^i | Z mov64 r0,r1 | E exit | W lddw (2 slots) | Ja/Jl(jlt r1,40)/Js(jset r1,1)/C(local call) with every displacement whose target lies in the program; epilogue mov64 r0,r1; exit", "vm": "NoData"}));
+    let inputs: Vec<(Vec<u8>, Vec<u8>)> = vec![(vec![], vec![])];
+    // group = choice of the first two slots
+    let c0 = slot_choices(0, n, true);
+    let c1 = slot_choices(1, n, true);
+    for a in &c0 {
+        for b in &c1 {
+            let idx = *g;
+            *g += 1;
+            if !s.take(idx) {
+                continue;
+            }
+            if s.expired() {
+                s.cut("layer 3: control-flow skeletons");
+                return;
+            }
+            let rp0 = json!({"kind":"isa-l3-group","eng":eng.name(),"n":n,"a":format!("{a:?}"),"b":format!("{b:?}")});
+            s.mark(idx, &format!("{}/cfg", eng.name()), &rp0);
+            let (a, b) = (*a, *b);
+            let inputs2 = inputs.clone();
+            run_group(s, eng, "cfg", &rp0, move |cs| {
+                let mut frontier: Vec<Vec<Slot>> = vec![vec![a, b]];
+                for pos in 2..n {
+                    let ch = slot_choices(pos, n, true);
+                    let mut next = Vec::with_capacity(frontier.len() * ch.len());
+                    for f in &frontier {
+                        for c in &ch {
+                            let mut x = f.clone();
+                            x.push(*c);
+                            next.push(x);
+                        }
+                    }
+                    frontier = next;
+                }
+                for sk in frontier {
+                    let Some(prog) = skeleton_program(&sk) else { continue };
+                    cs.count("skeletons", 1);
+                    let has_call = sk.iter().any(|x| matches!(x, Slot::C(_)));
+                    let c = ProgCase { kind: VmKind::NoData, prog: &prog, inputs: &inputs2, helpers: false, class: "cfg", max_steps: 2_000, has_local_call: has_call };
+                    let rp = prog_replay(&c, eng);
+                    let st = check_prog(cs, eng, &c, &rp);
+                    if st.rejected {
+                        cs.outcome("rejected-by-verifier", 1);
+                    } else {
+                        cs.sample("l3-skeleton", || json!({"skeleton": skel_str(&sk), "program": isa::listing(&prog)}));
+                    }
+                }
+            });
+        }
+    }
+    s.done("layer 3: control-flow skeletons");
+}
+
+// ------------------------------------------------------------------------------------------
+// Layer 4: distance (long programs)
+
+#[derive(Clone, Copy, Debug)]
+pub struct L4 {
+    pub n: usize,
+    pub p: usize,
+    pub d: i32,
+    /// 0 = ja, 1 = one-shot conditional jump, 2 = div64 by zero register, 3 = mod64 by zero register,
+    /// 4 = local call to a far function, 5 = div32 by non-zero
+    pub variant: u8,
+}
+
+pub fn l4_program(c: &L4) -> Option<Vec<I>> {
+    // layout: [0] mov64 r0,0  [1] mov64 r6,0  [2] mov64 r2,0  [3] mov64 r3,7 ... fillers ... [n-1] exit
+    let n = c.n;
+    let mut p: Vec<I> = Vec::with_capacity(n);
+    p.push(isa::mov64i(0, 0));
+    p.push(isa::mov64i(6, 0));
+    p.push(isa::mov64i(2, 0));
+    p.push(isa::mov64i(3, 7));
+    while p.len() < n - 1 {
+        p.push(isa::add64i(0, 1));
+    }
+    p.push(isa::EXIT);
+    let pos = c.p;
+    if pos < 5 || pos >= n - 2 {
+        return None;
+    }
+    let target = pos as i64 + 1 + c.d as i64;
+    match c.variant {
+        0 => {
+            if c.d < 0 || target < 4 || target as usize >= n {
+                return None;
+            }
+            p[pos] = isa::ja(c.d as i16);
+        }
+        1 => {
+            if target < 4 || target as usize >= n || c.d == -1 || (c.d < 0 && target as usize > pos - 1) {
+                return None;
+            }
+            p[pos - 1] = isa::add64i(6, 1);
+            p[pos] = I::new(0x15, 6, 0, c.d as i16, 1); // jeq r6, 1, d
+        }
+        2 => p[pos] = I::new(0x3f, 0, 2, 0, 0),
+        3 => p[pos] = I::new(0x9f, 3, 2, 0, 0),
+        5 => p[pos] = I::new(0x3c, 0, 3, 0, 0),
+        4 => {
+            // function at the far end: [n-3] add64 r0,1000 [n-2] exit ; main must not fall into it
+            if target < 4 || target as usize >= n {
+                return None;
+            }
+            let f = target as usize;
+            if f + 1 >= n || f == pos || f + 1 == pos {
+                return None;
+            }
+            p[f] = isa::add64i(0, 1000);
+            p[f + 1] = isa::EXIT;
+            p[pos] = isa::call_local(c.d);
+            if f > pos {
+                // main returns before reaching the function
+                if f < pos + 2 {
+                    return None;
+                }
+                p[f - 1] = isa::EXIT;
+            } else {
+                // function lies before the call site: main must jump over it
+                if f < 6 {
+                    return None;
+                }
+                p[f - 1] = isa::ja(2);
+            }
+        }
+        _ => return None,
+    }
+    Some(p)
+}
+
+pub fn l4_cases(thorough: bool, eng: Eng) -> Vec<L4> {
+    let mut v = vec![];
+    let sizes: Vec<usize> = match (thorough, eng) {
+        (false, Eng::Cl) => vec![70_000],
+        (false, _) => vec![70_000],
+        (true, _) => vec![40_000, 70_000, 1_000_000],
+    };
+    for n in sizes {
+        let ps = [5usize, 127, 128, 32766, 32767, 32768, 65534, 65535, 65536, n - 10, n / 2];
+        let ds = [0i32, 1, 127, 128, 32767, -2, -129, -130, -32768, 5000, -5000];
+        for p in ps {
+            if p >= n - 2 {
+                continue;
+            }
+            for d in ds {
+                for variant in [0u8, 1] {
+                    v.push(L4 { n, p, d, variant });
+                }
+            }
+            for variant in [2u8, 3, 5] {
+                v.push(L4 { n, p, d: 0, variant });
+            }
+            // local calls: displacement (i32) to the other end of the program and nearby
+            for d in [3i32, 200, -200, 32767, 32768, -32768, -32769, 65536, -65537, (n as i32 - 3) - (p as i32 + 1), 8 - (p as i32 + 1)] {
+                v.push(L4 { n, p, d, variant: 4 });
+            }
+        }
+    }
+    v
+}
+
+pub fn l4_check(s: &mut Sink, eng: Eng, c: &L4) {
+    let Some(prog) = l4_program(c) else { return };
+    let rp = json!({"kind":"isa-l4","eng":eng.name(),"n":c.n,"p":c.p,"d":c.d,"variant":c.variant});
+    let inputs = vec![(vec![], vec![])];
+    let class = match c.variant {
+        0 => "far-ja",
+        1 => "far-jcc",
+        2 => "far-div64-reg-zero",
+        3 => "far-mod64-reg-zero",
+        5 => "far-div32-reg",
+        _ => "far-local-call",
+    };
+    let pc = ProgCase { kind: VmKind::NoData, prog: &prog, inputs: &inputs, helpers: false, class, max_steps: 3 * c.n as u64 + 1000, has_local_call: c.variant == 4 };
+    let st = check_prog(s, eng, &pc, &rp);
+    if st.rejected {
+        s.violation(&format!("verifier/{class}/rejects-template"), "the default verifier rejected a well-formed long program".into(), rp.clone());
+    }
+    s.sample("l4-distance", || rp.clone());
+}
+
+pub fn run_layer4(s: &mut Sink, eng: Eng, g: &mut u64) {
+    let thorough = s.tier == Tier::Thorough;
+    let cases = l4_cases(thorough, eng);
+    s.meta.insert("layer4".into(), json!({"programs_planned": cases.len(), "lengths": if thorough {"40000, 70000, 1000000"} else {"70000"}}));
+    for c in cases {
+        let idx = *g;
+        *g += 1;
+        if !s.take(idx) {
+            continue;
+        }
+        if s.expired() {
+            s.cut("layer 4: distance");
+            return;
+        }
+        if l4_program(&c).is_none() {
+            continue;
+        }
+        let rp = json!({"kind":"isa-l4","eng":eng.name(),"n":c.n,"p":c.p,"d":c.d,"variant":c.variant});
+        s.mark(idx, &format!("{}/far", eng.name()), &rp);
+        run_group(s, eng, "far", &rp, move |cs| l4_check(cs, eng, &c));
+    }
+    s.done("layer 4: distance");
+}
+
+pub fn replay_l4(v: &Value) -> Vec<String> {
+    let eng = Eng::parse(v["eng"].as_str().unwrap());
+    let c = L4 { n: v["n"].as_u64().unwrap() as usize, p: v["p"].as_u64().unwrap() as usize, d: v["d"].as_i64().unwrap() as i32, variant: v["variant"].as_u64().unwrap() as u8 };
+    let mut s = Sink::new("replay", Tier::Quick, 0, 1, None, None, 3600);
+    let rp = v.clone();
+    run_group(&mut s, eng, "far", &rp, move |cs| l4_check(cs, eng, &c));
+    let r = s.finish();
+    r["violations"].as_array().unwrap().iter().map(|x| format!("{}: {}", x["sig"].as_str().unwrap(), x["detail"].as_str().unwrap())).collect()
+}
+
+// ------------------------------------------------------------------------------------------
 
 pub fn run(s: &mut Sink, eng: Eng) {
     let thorough = s.tier == Tier::Thorough;
@@ -728,5 +1334,18 @@ pub fn run(s: &mut Sink, eng: Eng) {
     s.meta.insert("rule".into(), json!("cases = (program, input) pairs enumerated as Cartesian products of the alphabets; non-trivial = inside the claim (reference result defined) and the transition under test changed a register, memory or control flow; every case is a distinct product element"));
     s.meta.insert("assumptions".into(), json!(["reference eBPF machine in mc/src/refmodel.rs is the oracle for the interpreter; the interpreter is the oracle for the compilers where the model says the result is defined", "operand values outside V64 / immediates outside I32 / offsets outside O16 are not covered"]));
     let mut g = 0u64;
-    run_layer1(s, eng, &mut g);
+    let only = std::env::var("VERIF_LAYER").ok();
+    let want = |l: &str| only.as_deref().map_or(true, |o| o.split(',').any(|x| x == l));
+    if want("1") {
+        run_layer1(s, eng, &mut g);
+    }
+    if want("4") {
+        run_layer4(s, eng, &mut g);
+    }
+    if want("3") {
+        run_layer3(s, eng, &mut g);
+    }
+    if want("2") {
+        run_layer2(s, eng, &mut g);
+    }
 }
